@@ -34,6 +34,8 @@ TECHNIQUE = ('Lean 4 proof of the decision logic over definitions generated from
 ASSUMPTIONS = [
     'IEEE-754 rounding is not verified (theorems over the reals; Float instance compared bit for bit with CPython every run)',
     'scipy.optimize.fsolve (tsat) is not modelled: the theorems take its result as a parameter; tsat(sat(t)) = t is sampled by the oracle',
+    'p = 0 exactly is outside the property (a vacuum is not a steam state): the oracle probes the smallest positive pressures instead; '
+    'p = 0 stays in the bit-for-bit correspondence (ZeroDivisionError of the real code <-> non-finite value of the Float model)',
     'numeric agreement of the two formulations and the single-potential identity of the hand-expanded IFC-67 formulas are '
     'evaluated by the oracle (sampling), not proved',
 ]
@@ -140,14 +142,27 @@ def o_sat(I, T, c):
     return []
 
 
+def raise_key(T, fn, args, e):
+    """the known defect: tsat raises TypeError for p within 1e-9 (relative) above its lower limit sat(0.01), because fsolve
+    evaluates sat() below 0.01 degC; the same exception anywhere else gets a different key"""
+    name = type(e).__name__
+    if fn == 'tsat' and name == 'TypeError':
+        plim = ref_psat67(0.01)
+        if -1e-12 <= args[0] / plim - 1.0 <= 1e-9:
+            return 'bounds-raises:tsat:TypeError'
+        return 'tsat-raises:TypeError:away-from-lower-limit'
+    return 'bounds-raises:%s:%s' % (fn, name)
+
+
 def o_tsat(I, T, c):
     t = c['t']
     with warnings.catch_warnings():
         warnings.simplefilter('ignore')
         try:
-            tt = T.tsat(T.sat(t), c.get('bounds', False))
+            ps = T.sat(t)
+            tt = T.tsat(ps, c.get('bounds', False))
         except Exception as e:
-            return [V('tsat-raises:' + type(e).__name__, 'tsat(sat(%r)) raises %s: %s' % (t, type(e).__name__, str(e)[:80]), c)]
+            return [V(raise_key(T, 'tsat', (ps,), e), 'tsat(sat(%r)) raises %s: %s' % (t, type(e).__name__, str(e)[:80]), c)]
     if tt is None or not abs(tt - t) <= TOL_INV * (t + 273.15):
         return [V('tsat-sat-inverse', 'tsat(sat(%r)) = %r' % (t, tt), c)]
     return []
@@ -218,7 +233,7 @@ def o_bounds(I, T, c):
         try:
             r = getattr(T, fn)(*args, True)
         except Exception as e:
-            return [V('bounds-raises:%s:%s' % (fn, type(e).__name__), '%s%r with range checking raises %s (%s)' % (
+            return [V(raise_key(T, fn, args, e), '%s%r with range checking raises %s (%s)' % (
                 fn, args, type(e).__name__, str(e)[:60]), c)]
         if want == 'band':
             return 'band'
@@ -230,7 +245,7 @@ def o_bounds(I, T, c):
             try:
                 r0 = getattr(T, fn)(*args, False)
             except Exception as e:
-                return out + [V('bounds-raises:%s:%s' % (fn, type(e).__name__), '%s%r raises %s' % (fn, args, type(e).__name__), c)]
+                return out + [V(raise_key(T, fn, args, e), '%s%r raises %s' % (fn, args, type(e).__name__), c)]
             if is_none(fn, r0):
                 out.append(V('bounds:%s:none-without-checking' % fn, '%s%r returns no value inside its range' % (fn, args), c))
     return out
@@ -481,7 +496,8 @@ def oracle(ctx, I, T, res, rng, scale=1.0):
     tl = [v for e in (0.01, 350., TC1_C, 590., 800.) for v in edge_values(e)]
     for t in tl + [rng.uniform(-3., 805.) for _ in range(n(150, 4000))]:
         cases.append(('sat', (t,)))
-        for p in edge_values(1e8) + edge_values(0.0) + [1e5, 10e6, 30e6, 99e6] + [rng.uniform(0, 1.01e8) for _ in range(3)]:
+        # p = 0 itself is outside the property (a vacuum is not a steam state; supst divides by p): small positive values (down to 1e-9 Pa) instead
+        for p in edge_values(1e8) + [-1e-9, -1.0, 1e-9, 1e-6, 1e-3] + [1e5, 10e6, 30e6, 99e6] + [rng.uniform(1e-3, 1.01e8) for _ in range(3)]:
             cases += [('cowat', (t, p)), ('supst', (t, p))]
         if 0.01 <= t <= TC1_C:
             ps = ref_psat67(t)
@@ -503,9 +519,9 @@ def oracle(ctx, I, T, res, rng, scale=1.0):
         for p in grid(1.0, 100e6, n(25, 250)):
             rc.append((t, p))
     for _ in range(n(1500, 60000)):
-        rc.append((rng.uniform(-2., 805.), rng.choice([rng.uniform(0., 101e6), 10 ** rng.uniform(0, 8.01)])))
+        rc.append((rng.uniform(-2., 805.), rng.choice([rng.uniform(1e-3, 101e6), 10 ** rng.uniform(0, 8.01)])))
     for t in [v for e in (0.01, 350., 590., 800.) for v in edge_values(e)]:
-        for p in edge_values(100e6) + edge_values(0.0) + [1e5, 17e6, 50e6]:
+        for p in edge_values(100e6) + [-1e-9, 1e-9, 1e-3] + [1e5, 17e6, 50e6]:
             rc.append((t, p))
     for t in grid(0.01, 350., n(40, 1000)):
         a, b = sorted([ref_psat(t), ref_psat67(t)])
